@@ -13,6 +13,7 @@
 //! canonical reply that the model must reproduce.
 mod common;
 mod c20;
+mod print;
 mod c03;
 mod parse;
 mod refjson;
@@ -28,6 +29,7 @@ pub fn exec_line(line: &str, out: &mut Out) {
         "kind" => c20::exec(rest, out),
         "parse" => parse::exec(rest, out),
         "c03" => c03::exec(rest, out),
+        "print" => print::exec(rest, out),
         _ => ("bad-op".to_string(), false),
     }));
     match r {
@@ -76,6 +78,9 @@ fn real_main() {
         match prop {
             "C20" => c20::gen(&mut out, thorough),
             "C03" => c03::gen(&mut out, thorough),
+            "C04" => print::gen(&mut out, thorough, "C04"),
+            "C08" => print::gen(&mut out, thorough, "C08"),
+            "C13" => print::gen(&mut out, thorough, "C13"),
             "C01" => parse::gen_streams(&mut out, thorough, &["ff"], "C01"),
             "C02" => parse::gen_streams(&mut out, thorough, &["ff"], "C02"),
             "C05" => parse::gen_streams(&mut out, thorough, &["ff"], "C05"),
